@@ -11,9 +11,12 @@
       [declare], the threshold/trigger setters, [support], [is_essential];
     - the explicit reorderings [swap], [reorder], [reorder_to_pairs] with
       ANY arguments, and [OSetRoots];
-    - [find_or_add], [copy_bdd], [image], [preimage] only while dynamic
-      reordering is disabled (they are not decorated: the signal would
-      escape, C09) — the side condition is part of [caller_ok3];
+    - [copy_bdd], [image], [preimage] with any arguments and any [last_len]
+      (since the repair of dd they run with reordering requests disabled and
+      restore the threshold: [guarded]);
+    - [find_or_add] only while dynamic reordering is disabled (it is neither
+      decorated nor guarded: the signal would escape, C09) — the side
+      condition is part of [caller_ok3];
     - [Driver2.op2]: the read-only queries, the pickle dumps,
       [undeclare_vars], [__del__].
     OUTSIDE: [OTape] (it leaves a non-empty oracle tape, i.e. breaks the
@@ -57,11 +60,8 @@ Theorem C17c_caller_ok3_unfold s o :
   match o with
   | O1 o =>
       caller_ok1 s o ∧
-      ((match o with
-        | OFindOrAdd _ _ _ | OCopy _ _ | OImage _ _ _ _ _ _ _
-        | OPreimage _ _ _ _ _ _ _ => true
-        | _ => false
-        end) = true → last_len s = None)
+      ((match o with OFindOrAdd _ _ _ => true | _ => false end) = true →
+       last_len s = None)
   | OShutdown => caller_ok s (ODecref 1)
   | _ => True
   end.
@@ -100,6 +100,42 @@ Theorem C17c_swap_rejected x y s L r s' :
   r = Err EValue ∧ Inv s' ∧ Counts s' L ∧ vars s' = vars s ∧ lvl2var s' = lvl2var s ∧
   frame s s' ∧ keepsH L s s'.
 Proof. exact (swap_junk_run x y s L r s'). Qed.
+
+(** ** The guarded module functions ([copy_bdd], [image], [preimage]): a
+    computation that is safe while requests are disabled, run through the
+    guard from ANY [GoodD] state, keeps the manager well formed and growing
+    only, restores the threshold exactly, and returns neither the signal nor
+    the oracle error *)
+Theorem C17c_guarded_total {A} (m : MS A) s r s' :
+  GoodD s → nrf m → nt m → tsafe m → guarded m s = (r, s') →
+  Inv s' ∧ extends s s' ∧ rctx s' = rctx s ∧ tape s' = tape s ∧ last_len s' = last_len s ∧
+  (∀ L, Counts s L → Counts s' L) ∧ r ≠ Err ENeedsReordering ∧ r ≠ Err EOracle.
+Proof. exact (guarded_total m s r s'). Qed.
+
+Theorem C17c_image_pub_total t u bn rn qbn q fa s r s' :
+  GoodD s → image_pub t u bn rn qbn q fa s = (r, s') →
+  Inv s' ∧ extends s s' ∧ rctx s' = rctx s ∧ tape s' = tape s ∧ last_len s' = last_len s ∧
+  (∀ L, Counts s L → Counts s' L) ∧ r ≠ Err ENeedsReordering ∧ r ≠ Err EOracle.
+Proof.
+  exact (fun HG => guarded_total _ s r s' HG (nrf_image t u bn rn qbn q fa)
+                     (nt_image t u bn rn qbn q fa) (tsafe_image t u bn rn qbn q fa)).
+Qed.
+Theorem C17c_preimage_pub_total t u bn rn qbn q fa s r s' :
+  GoodD s → preimage_pub t u bn rn qbn q fa s = (r, s') →
+  Inv s' ∧ extends s s' ∧ rctx s' = rctx s ∧ tape s' = tape s ∧ last_len s' = last_len s ∧
+  (∀ L, Counts s L → Counts s' L) ∧ r ≠ Err ENeedsReordering ∧ r ≠ Err EOracle.
+Proof.
+  exact (fun HG => guarded_total _ s r s' HG (nrf_preimage t u bn rn qbn q fa)
+                     (nt_preimage t u bn rn qbn q fa) (tsafe_preimage t u bn rn qbn q fa)).
+Qed.
+Theorem C17c_copy_bdd_pub_total src u s r s' :
+  GoodD s → copy_bdd_pub src u s = (r, s') →
+  Inv s' ∧ extends s s' ∧ rctx s' = rctx s ∧ tape s' = tape s ∧ last_len s' = last_len s ∧
+  (∀ L, Counts s L → Counts s' L) ∧ r ≠ Err ENeedsReordering ∧ r ≠ Err EOracle.
+Proof.
+  exact (fun HG => guarded_total _ s r s' HG (nrf_copy_bdd src u) (nt_copy_bdd src u)
+                     (tsafe_copy_bdd src u)).
+Qed.
 
 (** ** One call of the unified alphabet, any arguments, either outcome *)
 Theorem C17c_dout_unfold s r s' :
@@ -209,7 +245,17 @@ Definition hB : list (nat * op2) :=
    (1, O1 (ONew [(0, 0); (1, 1); (2, 2); (3, 3)]));
    (1, O1 (OCopy 0 10)); (1, O1 (OIncref 11))].
 
+(** the guarded module functions while dynamic reordering is ENABLED and the
+    forced trigger armed *)
+Definition hC : list (nat * op2) :=
+  [(0, O1 (OConfigure (Some true))); (0, O1 (OSetTrig (Some 1)));
+   (0, O1 (OImage 10 3 true [] true [1] false));
+   (0, O1 (OPreimage 10 3 true [] true [1] true));
+   (1, O1 (OConfigure (Some true))); (1, O1 (OSetTrig (Some 1)));
+   (1, O1 (OCopy 0 7))].
+
 Definition wA : world2 := run2 world2_empty hA.
+Definition wB : world2 := run2 world2_empty (hA ++ hB).
 
 Lemma is_Some_bool {A} (o : option A) :
   (match o with Some _ => true | None => false end) = true → is_Some o.
@@ -246,11 +292,12 @@ Ltac hist3_step :=
           end|];
   split; [caller3|].
 
-Example C17c_history_hypotheses_hold : hist_ok3 world2_empty (hA ++ hB).
-Proof. cbn [hA hB app hist_ok3]. repeat hist3_step. exact I. Qed.
+Example C17c_history_hypotheses_hold : hist_ok3 world2_empty (hA ++ hB ++ hC).
+Proof. cbn [hA hB hC app hist_ok3]. repeat hist3_step. exact I. Qed.
 
 Example C17c_history_good :
-  WGoodD (run2 world2_empty (hA ++ hB)) ∧ Forall out_ok (outs2 world2_empty (hA ++ hB)).
+  WGoodD (run2 world2_empty (hA ++ hB ++ hC)) ∧
+  Forall out_ok (outs2 world2_empty (hA ++ hB ++ hC)).
 Proof. exact (history3_from_empty _ C17c_history_hypotheses_hold). Qed.
 
 (** the outcomes of the second part *)
@@ -263,6 +310,21 @@ Example C17c_outcomes :
    Ok (VN 0); Ok (VL [VN 0; VZ 7; VZ 9]);
    Err EValue; Err EValue; Err EValue; Err EValue;
    Ok VU; Ok (VL [VN 4]); Ok (VB true); Ok (VZ 2); Ok VU; Ok (VZ 11); Ok VU].
+Proof. by vm_compute. Qed.
+
+(** [image], [preimage], [copy_bdd] called with requests enabled and the
+    forced trigger armed: they return normally, the threshold is the same
+    before and after, and the trigger has not been consumed (no request was
+    served inside) *)
+Example C17c_guarded_calls :
+  snd <$> outs2 wB hC =
+    [Ok (VB false); Ok VU; Ok (VZ 13); Ok (VZ (-1)); Ok (VB false); Ok VU; Ok (VZ 4)] ∧
+  (fun k => (last_len (world2_get (run2 wB (take k hC)) 0),
+             trig (world2_get (run2 wB (take k hC)) 0))) <$> [2; 3; 4] =
+    [(Some 100, Some 1); (Some 100, Some 1); (Some 100, Some 1)] ∧
+  (fun k => (last_len (world2_get (run2 wB (take k hC)) 1),
+             trig (world2_get (run2 wB (take k hC)) 1))) <$> [6; 7] =
+    [(Some 100, Some 1); (Some 100, Some 1)].
 Proof. by vm_compute. Qed.
 
 (** the variable order along the way (names ↦ levels): after the forced
@@ -313,5 +375,8 @@ Print Assumptions C17c_history3_keeps.
 Print Assumptions C17c_reorder_total.
 Print Assumptions C17c_swap_total.
 Print Assumptions C17c_reorder_to_pairs_total.
+Print Assumptions C17c_guarded_total.
+Print Assumptions C17c_image_pub_total.
 Print Assumptions C17c_history_good.
+Print Assumptions C17c_guarded_calls.
 Print Assumptions C17c_truth_tables.
